@@ -2,6 +2,8 @@
 
 package rosmar
 
+import "database/sql"
+
 // Intrinsics: intercepted by the symbolic executor (gosmt). Bodies are never run.
 
 func verifU64(name string) uint64      { panic("intrinsic") }
@@ -10,9 +12,27 @@ func verifInt(name string) int         { panic("intrinsic") }
 func verifBool(name string) bool       { panic("intrinsic") }
 func verifStr(name string) string      { panic("intrinsic") }
 func verifBytes(name string) []byte    { panic("intrinsic") }
+func verifKey(name string) string      { panic("intrinsic") }
 func verifAssume(c bool)               { panic("intrinsic") }
 func verifAssert(c bool, label string) { panic("intrinsic") }
 func verifReach(label string)          { panic("intrinsic") }
 func verifChoose(name string, n int) int { panic("intrinsic") }
 func verifThorough() bool              { panic("intrinsic") }
 func verifSymbolic() bool              { panic("intrinsic") }
+
+func verifAnd(cs ...bool) bool         { panic("intrinsic") }
+func verifOr(cs ...bool) bool          { panic("intrinsic") }
+func verifImplies(a, b bool) bool      { panic("intrinsic") }
+func verifBytesEq(a, b []byte) bool    { panic("intrinsic") } // nil-ness and content
+
+func verifNewDB(name string, inMemory bool, nColls, nDocs, nSpare int) *sql.DB { panic("intrinsic") }
+func verifDocSlots(db *sql.DB) int                                            { panic("intrinsic") }
+func verifDocSlot(db *sql.DB, i int) verifDoc                                 { panic("intrinsic") }
+func verifGetDoc(db *sql.DB, coll int64, key string) verifDoc                 { panic("intrinsic") }
+func verifBucketLastCas(db *sql.DB) int64                                     { panic("intrinsic") }
+func verifCollLastCas(db *sql.DB, id int64) int64                             { panic("intrinsic") }
+func verifSnapshot(db *sql.DB) int                                            { panic("intrinsic") }
+func verifSameDocsExcept(db *sql.DB, snap int, coll int64, key string) bool   { panic("intrinsic") }
+func verifSameTable(db *sql.DB, snap int, table string) bool                  { panic("intrinsic") }
+func verifSameDB(db *sql.DB, snap int) bool                                   { panic("intrinsic") }
+func verifTxnOpen(db *sql.DB) bool                                            { panic("intrinsic") }
